@@ -68,6 +68,10 @@ def run(tier, seed):
     rep.floor("multi-block columns", tot["multi"], per * shards // 4)
     rep.assumptions = ["fixed-width CHAR blocks are not reachable from SQL (column builders always pass char_width=None) and are not driven",
                        "free-form misuse of the iterator protocol (batches larger than fetch_hint) is not driven: the contract is the one RowSetIterator follows"]
+    if tier == "thorough" and not os.environ.get("VERIF_OVERLAY"):
+        import sanitize
+        sanitize.overlay(rep, "asan", timeout=5400)
+        sanitize.miri(rep, [["col", seed, 5, sh, 70] for sh in range(16)], timeout=3000)
     return rep.finish()
 
 
